@@ -232,6 +232,60 @@ fn dispatch_shapes(ctx: &Ctx, rep: &mut Report) {
     }
 }
 
+/// SGR parameter lists, systematically: every list of up to 4 (thorough 5) parameters over
+/// the selectors, plain codes, parameters WITH sub-parameters that start like a selector,
+/// complete colon forms and the empty parameter - the decoding of each list against the
+/// reference decoder (lists it leaves unspecified - malformed colour forms - are skipped
+/// by `run_pair`).
+fn sgr_shapes(ctx: &Ctx, rep: &mut Report) {
+    let t0 = Instant::now();
+    let atoms = ["38", "48", "2", "5", "1", "3", "9", "2:7", "5:9", "38:5:1", "48:2::1:2:3", "", "38:2:1:2:3", "5:0"];
+    let k = ctx.tier.pick(4usize, 5usize);
+    let mut lists: Vec<String> = vec![];
+    let mut level: Vec<Vec<&str>> = vec![vec![]];
+    for _ in 0..k {
+        let mut next = vec![];
+        for l in &level {
+            for a in atoms {
+                let mut x = l.clone();
+                x.push(a);
+                next.push(x);
+            }
+        }
+        lists.extend(next.iter().map(|l| l.join(";")));
+        level = next;
+    }
+    let bad: Vec<(String, String)> = lists
+        .par_iter()
+        .filter_map(|l| {
+            for intro in ["\x1b[", "\u{9b}"] {
+                let mut p = Parser::new();
+                let mut r = RefParser::new();
+                let full = format!("{}{}mX", intro, l);
+                match guarded(|| run_pair(&mut p, &mut r, &full)) {
+                    Ok(Ok(())) => {}
+                    Ok(Err(e)) => return Some((full, e)),
+                    Err(m) => return Some((full, format!("panic: {}", m))),
+                }
+            }
+            None
+        })
+        .collect();
+    let runs = lists.len() as u64 * 2;
+    rep.evaluations += runs;
+    rep.transitions += runs;
+    rep.traces_validated += runs;
+    rep.distinct_nontrivial += lists.len() as u64;
+    rep.parts.push(json!({"part":"sgr-shapes","atoms":atoms.len(),"max_parameters":k,"lists":lists.len(),"violating":bad.len(),"wall_s":t0.elapsed().as_secs_f64()}));
+    println!("part sgr-shapes: {} parameter lists, {} violating ({:.1}s)", lists.len(), bad.len(), t0.elapsed().as_secs_f64());
+    for (s, e) in bad.iter().take(3) {
+        emit_violation(ctx, rep, "C03", json!({"part":"dispatch-shapes","sequence_raw":s,"sequence":esc(s),"oracle":"dispatch","observed":e}));
+    }
+    if bad.len() > 3 {
+        rep.violations += bad.len() as u64 - 3;
+    }
+}
+
 /// ESC Fe vs its C1 twin from every parser state: same state, same function,
 /// same behaviour for a following `5;6H`.
 fn esc_fe_twins(ctx: &Ctx, rep: &mut Report) {
@@ -331,10 +385,11 @@ pub fn run(ctx: &Ctx) -> Report {
     crate::engine::install_panic_hook();
     table_sweep(ctx, &mut rep);
     dispatch_shapes(ctx, &mut rep);
+    sgr_shapes(ctx, &mut rep);
     esc_fe_twins(ctx, &mut rep);
     let p = parts!(ctx.tier);
     run_part(ctx, &mut rep, &p);
-    rep.rule = "(a) every (parser state x background) x every listed Unicode scalar: next state and returned function compared with a table-driven reference parser transcribed from Williams' diagram (+ the four stated deviations), followed by a complete CUP to confirm the state; (b) every CSI final 0x40-0x7E x {no prefix, ? < = >} x 44 parameter shapes x {no intermediate, each 0x20-0x2F, two intermediates} in 7- and 8-bit form, every ESC final x intermediates, each after a parameter-heavy sequence; (c) every ESC Fe vs its C1 twin from every background; (d) product BFS of (real Parser, reference) over 34 class-representative tokens, dedup on the real parser's complete state".into();
+    rep.rule = "(a) every (parser state x background) x every listed Unicode scalar: next state and returned function compared with a table-driven reference parser transcribed from Williams' diagram (+ the four stated deviations), followed by a complete CUP to confirm the state; (b) every CSI final 0x40-0x7E x {no prefix, ? < = >} x 44 parameter shapes x {no intermediate, each 0x20-0x2F, two intermediates} in 7- and 8-bit form, every ESC final x intermediates, each after a parameter-heavy sequence; (b2) every SGR parameter list of <= 4 (thorough 5) parameters over 14 atoms (selectors, plain codes, parameters with sub-parameters that start like a selector, colon forms, empty); (c) every ESC Fe vs its C1 twin from every background; (d) product BFS of (real Parser, reference) over 34 class-representative tokens, dedup on the real parser's complete state".into();
     rep.assumptions = vec![
         "functions are not compared (only states) where the statements do not fix them: > 32 parameters, > 6 sub-parameters, values > 65535, malformed SGR colour forms, a private marker combined with intermediates, charset finals other than 0/B".into(),
         "quick tier sweeps scalars < U+3000 and every 7th above; thorough sweeps all 1,112,064".into(),
